@@ -43,6 +43,7 @@ type callOut struct {
 	Err   string `json:"err,omitempty"`
 	Panic string `json:"panic,omitempty"`
 	Site  string `json:"site,omitempty"`
+	Lazy  string `json:"lazy"` // state of every lazily computed part after the call (catalog.VerifLazyState)
 }
 
 type buildRes struct {
@@ -60,6 +61,7 @@ type serOut struct {
 	End    string                     `json:"end"`
 	Err    *errOut                    `json:"err,omitempty"`
 	Calls  []callOut                  `json:"calls,omitempty"`
+	Lazy0  []string                   `json:"lazy0,omitempty"` // schemas in serialisation order, state after the build
 	First  map[string]json.RawMessage `json:"first,omitempty"` // first successful result per accessor (J, O; T as a JSON string)
 	Builds []buildRes                 `json:"builds,omitempty"`
 	Conc   [][]buildRes               `json:"conc,omitempty"` // per worker, per item
@@ -70,6 +72,14 @@ type serOut struct {
 func sha(b []byte) string {
 	h := sha256.Sum256(b)
 	return hex.EncodeToString(h[:8])
+}
+
+func lazyString(j *kit.JApi) string {
+	var sb strings.Builder
+	for _, l := range j.Catalog().VerifLazyState() {
+		sb.WriteString(l[strings.LastIndex(l, ":")+1:])
+	}
+	return sb.String()
 }
 
 func callAcc(j *kit.JApi, a string) (b []byte, co callOut) {
@@ -153,8 +163,10 @@ func serOne(sc *serCase) (out serOut) {
 			return out
 		}
 		out.First = map[string]json.RawMessage{}
+		out.Lazy0 = j.Catalog().VerifLazyState()
 		for _, a := range sc.Hist {
 			b, co := callAcc(&j, a)
+			co.Lazy = lazyString(&j)
 			out.Calls = append(out.Calls, co)
 			if sc.Full && b != nil {
 				if _, seen := out.First[a]; !seen {
